@@ -1253,7 +1253,10 @@ nni_ctx_open(nni_ctx **ctxp, nni_sock *sock)
 	nni_mtx_lock(&sock->s_mx);
 	if (sock->s_closing) {
 		nni_mtx_unlock(&sock->s_mx);
-		nni_ctx_rele(ctx);
+		// Close it (not just release it): it is on the socket's
+		// context list already, and the closing socket waits for
+		// that list to drain.
+		nni_ctx_close(ctx);
 		return (NNG_ECLOSED);
 	}
 	nni_mtx_unlock(&sock->s_mx);
